@@ -136,6 +136,21 @@ func main() {
 		}
 		return
 	}
+	if strings.HasPrefix(*dumpfn, "WRITERS:") {
+		// WRITERS:pkg.Type — every function that writes a field of that struct type
+		w := loadWorld(*repo)
+		spec := strings.TrimPrefix(*dumpfn, "WRITERS:")
+		i := strings.LastIndex(spec, ".")
+		tn := w.Named(spec[:i], spec[i+1:])
+		for _, fn := range w.RepoFuncs("schema", "internal", "flow", "callbacks", "components", "utils", "compose") {
+			for _, fw := range fieldWrites(fn) {
+				if fw.owner == tn {
+					fmt.Printf("%s | %s %s | fresh=%v | %s\n", w.fname(fn), fw.kind, fw.field.Name(), freshBase(fw.base, 0), w.pos(fw.in.Pos()))
+				}
+			}
+		}
+		return
+	}
 	if *dumpfn == "LIST" {
 		w := loadWorld(*repo)
 		for _, f := range w.RepoFuncs() {
